@@ -81,7 +81,17 @@ func (r *Report) Break(format string, a ...interface{}) {
 }
 
 // Min declares the minimum instance count of a rule (vacuity guard).
-func (r *Report) Min(rule string, n int) { r.Minima[rule] = n }
+//
+// n is the number of instances confirmed by hand on the reference tree. Behaviour-preserving refactorings merge
+// duplicated code (three copies of an enqueue become one helper), so the guard trips only when fewer than half of
+// them are found: its job is to catch a rule that no longer matches anything, not to freeze the code's shape.
+func (r *Report) Min(rule string, n int) {
+	m := (n + 1) / 2
+	if m < 1 {
+		m = 1
+	}
+	r.Minima[rule] = m
+}
 
 // KnownFinding is one entry of /verif/known_findings.json.
 type KnownFinding struct {
